@@ -472,6 +472,12 @@ func (s *Sim) createIterH(what string, t *simTable, handle string) {
 	if len(t.iters) >= 5 {
 		return
 	}
+	if len(t.iters) > 0 && s.Rng.IntN(6) == 0 {
+		// a collection cycle of the Go runtime between two registrations on one table: whatever identifies a tracker must not be
+		// an address that the runtime may hand out again
+		runtime.GC()
+		s.gcCycles++
+	}
 	// (own DB handle: the tracker's later Close() commits under this name, so it can be paused without catching the collector)
 	wtxn := s.DB.NewHandle(handle).WriteTxn(t.tbl)
 	s.open = wtxn
